@@ -690,7 +690,7 @@ class CategoricalClassification:
 
                 for ix in ixs:
                     current_label = y_sort[ix]
-                    possible_labels = np.where(label_values != current_label)[0]
+                    possible_labels = label_values[label_values != current_label]
 
                     # find all unique values from labels != current label
                     values = set()
